@@ -82,6 +82,9 @@ def _run_property(ctx):
     for t in range(ntriples):
         b, l, r, kinds = gen_nb.any_triple(rng, minor_change=rng.random() < 0.2)
         chosen = mergelib.covering_combos(rng, 9) if ctx.tier == 'quick' and t % 15 == 0 else ([mergelib.Args('inline')] + rng.sample(combos, 2) if ctx.tier == 'quick' else combos if t % 10 == 0 else rng.sample(combos, 30))
+        if ctx.tier == 'quick' and any(('output' in k or k in ('both-outputs', 'cell:rerun')) for k in kinds):
+            # output scenarios: every output strategy once
+            chosen = list(chosen) + [mergelib.Args(rng.choice(mergelib.MERGE), rng.choice(mergelib.INPUT), o, rng.random() < 0.7) for o in mergelib.OUTPUT]
         for a in chosen:
             mode = mergelib.RENDERERS[(t + len(a.key()[1] or '')) % 3] if ctx.tier == 'quick' else None
             for md in ([mode] if mode else mergelib.RENDERERS):
